@@ -19,7 +19,7 @@ ASSUMPTIONS = [
 ]
 WHICH = "C15"
 
-CORPUS = [("~=2.0.0a1.dev2||>1.0.0, !=1!1.0.*||==1.0.0.post1.dev1+a.1,<=2.0.0", "<3"), ("<1 || >2", "<1,>2"), ("<4", ">=1.2,<2 || >=2.dev0"), (">1.0", "1.0.post1+local"), ("*", "<1,>2"), ("<1,>2", "*"),
+CORPUS = [(">=1.0post-", "<2"), ("~=2.0.0a1.dev2||>1.0.0, !=1!1.0.*||==1.0.0.post1.dev1+a.1,<=2.0.0", "<3"), ("<1 || >2", "<1,>2"), ("<4", ">=1.2,<2 || >=2.dev0"), (">1.0", "1.0.post1+local"), ("*", "<1,>2"), ("<1,>2", "*"),
           ("!=0 || ==0.*", "1.*"), (">=1.0+local", "1.0"), ("1.0", ">=1.0+local"), ("1.0+local", "1.0"), ("!=1.0+local", "1.0"),
           ("^1.2", "~1.2.3"), ("!=1.2.*", "1.2.3"), ("<2.0.0", ">=2.0.0.dev0"), ("==1.*", "!=1.2.*"), ("~=1.2", "<1.5 || >3"),
           (">=1,<2 || >=3", "<1.5 || >=1.7,<3.5"), ("!=1.0", "!=2.0"), ("!=1.0,!=2.0", "1.0 || 2.0"), ("<1.0 || >1.0", "1.0")]
